@@ -9,7 +9,7 @@ ID = "C16"
 TECHNIQUE = "reference construction of the documented hypothetical population + first-crossing oracle, on Hypothesis-generated pilots, rates, tallies, seeds"
 RULE = (
     "cases: pilot (non-constant pilot shorter than N, tiled); prefix (a prefix that already crosses at k, any seed / reps / "
-    "quantile); comparison (bound-1 assorter, clean value 1/(2-v), one-vote value at every floor(1/r1)-th position from 0, 0 at "
+    "quantile); comparison (plurality or super-majority assorter with bound u: clean value 1/(2-v/u), one-vote value (1/2)/(2-v/u) at every floor(1/r1)-th position from 0, 0 at "
     "every floor(1/r2)-th); polling (reported tallies interleaved); contest (estimate = max over assertions); audit (max over "
     "contests of the max over unconfirmed assertions, 0 for a contest confirmed since an earlier estimate); audit-oneaudit (first "
     "estimate of a ONEAudit: the CVRs' own overstatement values with one-/two-vote overstatements at the assumed rates, tiled); interleave "
@@ -106,10 +106,18 @@ def strategy(shard):
         tests = ["alpha-shrink", "alpha-shrink-d10", "alpha-fixed", "bet-agrapa", "bet-fixed", "kw", "km"] + ([] if at == "POLLING" else ["alpha-optcomp"])
         r1 = draw(st.sampled_from([0, 0.001, 0.01, 0.05, 0.2, 1.0])) if at != "POLLING" else None
         r2 = draw(st.sampled_from([0, 0, 0.001, 0.01, 0.1]))
-        for r in (r1, r2):
-            pass
+        share = None
+        if mode == "comparison" and at == "CARD_COMPARISON" and draw(st.integers(0, 2)) == 0:
+            # a super-majority contest: the assorter's bound is 1/(2 share), not 1; documented constructions are in units of it
+            from fractions import Fraction
+            share = draw(st.sampled_from(["2/3", "3/5", "3/4", "1/4", "2/5"]))
+            f = Fraction(share)
+            cap = int(tw * (1 / f - 1))
+            while cap >= 0 and not (Fraction(tw, tw + cap) > f):
+                cap -= 1
+            tl = [draw(st.integers(0, max(0, min(rest, cap))))]
         return {"mode": mode, "N": N, "tw": tw, "tl": tl, "audit_type": at, "test": draw(st.sampled_from(tests)),
-                "risk_limit": draw(st.sampled_from(ALPHAS)), "rate_1": r1, "rate_2": r2}
+                "risk_limit": draw(st.sampled_from(ALPHAS)), "rate_1": r1, "rate_2": r2, "share": share}
 
     if mode in ("pilot", "prefix"):
         return pilot()
@@ -163,16 +171,19 @@ def _contest(case):
     t = TESTS[case["test"]]
     losers = [f"L{i}" for i in range(len(case["tl"]))]
     tally = {"W": case["tw"], **{l: v for l, v in zip(losers, case["tl"])}}
-    d = {"name": "C", "risk_limit": case["risk_limit"], "cards": case["N"], "choice_function": "PLURALITY", "n_winners": 1,
+    d = {"name": "C", "risk_limit": case["risk_limit"], "cards": case["N"], "choice_function": "SUPERMAJORITY" if case.get("share") else "PLURALITY", "n_winners": 1,
          "candidates": ["W"] + losers, "winner": ["W"], "audit_type": case["audit_type"], "test": getattr(NonnegMean, t["test"]),
          "estim": getattr(NonnegMean, t["estim"]) if t.get("estim") else None, "bet": getattr(NonnegMean, t["bet"]) if t.get("bet") else None,
          "test_kwargs": dict(t["kw"]), "use_style": True, "g": 0.1, "tally": tally}
+    if case.get("share"):
+        from fractions import Fraction
+        d["share_to_win"] = float(Fraction(case["share"]))
     contests = Contest.from_dict_of_dicts({"C": d})
     Assertion.make_all_assertions(contests)
     con = contests["C"]
     con.find_margins_from_tally()
     for a in con.assertions.values():
-        a.test.u = 1 if case["audit_type"] == "POLLING" else 2 / (2 - a.margin)
+        a.test.u = 1 if case["audit_type"] == "POLLING" else 2 / (2 - a.margin / a.assorter.upper_bound)
     audit = Audit.from_dict({"quantile": 0.8, "error_rate_1": case["rate_1"] or 0, "error_rate_2": case["rate_2"] or 0, "reps": None,
                              "sim_seed": 1, "strata": {"s": {"max_cards": case["N"], "use_style": True}}})
     return audit, con
@@ -190,9 +201,11 @@ def _population(case, a):
         # loser votes are 0, winner votes are the upper bound, everything else 1/2, interleaved
         want = {0.0: n0, 0.5: nh, 1.0: nb}
         return None, want
-    x = np.full(N, 1 / (2 - v))
+    # documented: values of the overstatement assorter for overstatements of 0, u/2 (one vote) and u (two votes)
+    ub = a.assorter.upper_bound
+    x = np.full(N, 1 / (2 - v / ub))
     if case["rate_1"]:
-        x[np.arange(0, N, int(1 / case["rate_1"]))] = 0.5 / (2 - v)
+        x[np.arange(0, N, int(1 / case["rate_1"]))] = 0.5 / (2 - v / ub)
     if case["rate_2"]:
         x[np.arange(0, N, int(1 / case["rate_2"]))] = 0.0
     return x, None
@@ -304,7 +317,7 @@ def evaluate(case, out):
                     d, _u = a.mvrs_to_data(cvrs, cvrs, use_all=True)     # (what these values are is C06's business)
                     d = np.array(d, dtype=float)
                     if case["rate_1"]:
-                        d[np.arange(0, len(d), math.floor(1 / case["rate_1"]))] = a.make_overstatement(overs=1 / 2)
+                        d[np.arange(0, len(d), math.floor(1 / case["rate_1"]))] = 0.5 / (2 - a.margin / a.assorter.upper_bound)   # overstatement u/2
                     if case["rate_2"]:
                         d[np.arange(0, len(d), math.floor(1 / case["rate_2"]))] = 0.0   # the largest possible overstatement
                     N = int(a.test.N)
